@@ -10,8 +10,10 @@ CLAIMED = {
  "C03": dict(
     category="proof",
     text="Coq theorems (Props/C03.v, closed under the global context): for finite operands FMA(x,y,u) is x*y+u as an exact rational "
-         "rounded ONCE under result_spec (precision, mode, IEEE zero-sum sign, accuracy), the zero-addend branch is Mul, and the result "
-         "does not depend on aliasing flags. The model is tied to decimal.go by correspondence: " + CORR + " (all 15 aliasing shapes, "
+         "rounded ONCE under result_spec (precision, mode, IEEE zero-sum sign, accuracy) whenever the exact product lies in the exponent "
+         "range (sufficient: MinExp+1 <= exp x + exp y <= MaxExp) and a uint32 size bound (fma_span) holds - the theorem is instantiated "
+         "on concrete operands in the file (C03_fma_instance) -, the zero-addend branch is Mul, and the result does not depend on "
+         "aliasing flags. The model is tied to decimal.go by correspondence: " + CORR + " (all 15 aliasing shapes, "
          "comparison with Mul-then-Add). Known finding K3 (product exponent outside int32) is excluded by the theorem's hypothesis.",
     design_ref="DESIGN.md section 6 C03",
     note="K3 reported as KNOWN-FINDING; special-value rows of FMA are correspondence-only.",
@@ -29,9 +31,11 @@ CLAIMED = {
     technique="Coq proof on store model + model/code correspondence with a documented-attribute table"),
  "C10": dict(
     category="proof",
-    text="Coq theorems (Props/C10.v): Add, Mul and Quo of finite operands give observationally equal results for any two receivers "
-         "with the same precision and mode (previous value, form, sign, exponent, accuracy, mantissa are irrelevant), and the aliasing "
-         "flags are irrelevant. The tie of that alias-free model to the code IS the buffer-level half of the property and is decided "
+    text="Coq theorems (Props/C10.v, C10b.v): Add, Sub, Mul, Quo, FMA (all operand classes incl. zeros, infinities and ErrNaN "
+         "outcomes), Set, Neg, Abs, SetInf, SetInt64, SetUint64, SetInt, SetRat, SetBitsExp, SetMantExp, Copy, MantExp give observationally "
+         "equal results for any two receivers with the same precision and mode (previous value, form, sign, exponent, accuracy, mantissa "
+         "are never read), FMA into a receiver aliasing the addend equals FMA into a fresh receiver, and the aliasing flags are "
+         "irrelevant. The tie of that alias-free model to the code IS the buffer-level half of the property and is decided "
          "by correspondence over every aliasing shape (5 binary, 15 FMA, 2 unary) and receiver history (longer/shorter/special "
          "previous values, capacities, stale words): " + CORR + " plus a group judge comparing the implementation's results within "
          "each group of equivalent calls.",
@@ -88,12 +92,14 @@ CLAIMED = {
     category="proof",
     text="Coq theorems (Props/C08.v): the canonical-form invariant WF (leading digit non-zero, words < 10^19, no digit beyond the "
          "precision, exponent in range, zero/inf carry no mantissa constraints) is preserved by every valid operation and, by induction, "
-         "by every finite program of valid operations from any canonical store, and none of them crashes. valid_op covers Add Mul Quo "
-         "Set SetPrec SetMode Neg Abs and the integer/raw setters; Sub, FMA, SetRat, MantExp-with-out-parameter and Gob decoding are "
-         "not in valid_op yet and are decided by correspondence: " + CORR + ", with the canonical-form predicate evaluated on the "
-         "implementation's raw mantissa words after every step of random programs (incl. corrupted Gob input).",
+         "by every finite program of valid operations from any canonical store, and none of them crashes. Props/C08b.v extends "
+         "valid_op to ALL 35 operations of the store model (Sub, FMA - also when the product leaves the exponent range -, SetRat, MantExp, "
+         "Gob decoding of arbitrary bytes, Gob round trip): the only preconditions are documented contracts and uint32 size bounds. "
+         "Sqrt and the float setters live in a second model and are covered by the run: " + CORR + ", with the canonical-form predicate "
+         "evaluated on the implementation's raw mantissa words after every step of random programs (incl. corrupted Gob input) and "
+         "on the receivers of SetFloat64/SetFloat/Sqrt through the float driver.",
     design_ref="DESIGN.md section 6 C08",
-    note="Program-level theorem for the valid_op subset; remaining operations exploration.",
+    note="Program-level theorem for every operation of the L3 store model; Sqrt/SetFloat*/Parse results are canonical by their own theorems (C05, C12) or by exploration (C15).",
     technique="Coq proof by induction over operation sequences + model/code correspondence on random programs"),
  "C11": dict(
     category="proof",
